@@ -29,6 +29,7 @@ type c18Spec struct {
 	Then     []int    `json:"master_usage_later"`
 	SlowHC   bool     `json:"master_daemon_health_check_every_20s"`         // legal: the hosts' health-check intervals differ (manager 5 s)
 	ROFails  bool     `json:"read_only_statements_fail_in_the_first_phase"` // every SET read_only on the master fails with 1205 until the usage changes
+	Terms    bool     `json:"manager_changes_before_every_usage_change"`    // the manager's session expires before every later usage value: the guard's changes are made by alternating processes
 }
 
 const (
@@ -50,6 +51,22 @@ func c18Gen(seed int64, idx int) c18Spec {
 	}
 	sp.ROFails = r.Intn(4) == 0
 	sp.SlowHC = r.Intn(4) == 0
+	if idx%9 == 4 {
+		// manager terms: one semi-sync replica with normal usage, the master's usage crossing both thresholds again and
+		// again, every crossing handled by another process than the previous one
+		sp.Terms, sp.N, sp.W, sp.ROFails, sp.SlowHC = true, 2, 1, false, false
+		sp.RepDU, sp.RepState = []int{50}, []string{"semisync"}
+		a, b := 97, 50
+		if r.Intn(2) == 0 {
+			a, b = 50, 97
+		}
+		sp.MasterDU, sp.Then = a, []int{b, a, b, a}
+		if a == 50 {
+			sp.StartRO = "read_only"
+		} else {
+			sp.StartRO = "writable"
+		}
+	}
 	return sp
 }
 
@@ -310,8 +327,26 @@ func c18Run(u *Unit) {
 		time.Sleep(32 * time.Second)
 		for _, v := range sp.Then {
 			roFailOn.Store(false)
+			if sp.Terms {
+				for try := 0; try < 3; try++ {
+					mgr := lockHolder(s)
+					s.ExpireSession(mgr)
+					if s.WaitUntil(40*time.Second, 500*time.Millisecond, func() bool { h := lockHolder(s); return h != "" && h != mgr }) {
+						sc.Cover("guard-handed-to-another-process")
+						break
+					}
+				}
+			}
 			du(master, v)
 			time.Sleep(27 * time.Second)
+			if sp.Terms {
+				lowMu.Lock()
+				lc, lf := lastChange, lastFlag
+				lowMu.Unlock()
+				if lc != "" && lf != lc {
+					sc.Violate("C18", "low-space-flag-does-not-follow-last-change", fmt.Sprintf("27 s after the master's usage became %d%% the last successful mode change implies low_space=%s but the key holds %q (manager %s)", v, lc, lf, lockHolder(s)))
+				}
+			}
 		}
 		lowMu.Lock()
 		lc, lf := lastChange, lastFlag
